@@ -274,21 +274,10 @@ pub fn set_condition_register_signed(
     lhs: Expression,
     rhs: Expression,
 ) -> Result<(), Error> {
-    let lt = Expression::ite(
-        Expression::cmplts(lhs.clone(), rhs.clone())?,
-        expr_const(0b0100, 4),
-        expr_const(0b0000, 4),
-    )?;
-    let gt = Expression::ite(
-        Expression::cmplts(rhs.clone(), lhs.clone())?,
-        expr_const(0b0010, 4),
-        expr_const(0b0000, 4),
-    )?;
-    let eq = Expression::ite(
-        Expression::cmplts(rhs, lhs)?,
-        expr_const(0b0001, 4),
-        expr_const(0b0000, 4),
-    )?;
+    // each flag is a 1-bit scalar: assign the 1-bit comparison results
+    let lt = Expression::cmplts(lhs.clone(), rhs.clone())?;
+    let gt = Expression::cmplts(rhs.clone(), lhs.clone())?;
+    let eq = Expression::cmplts(rhs, lhs)?;
     block.assign(scalar(format!("{}-lt", condition_register.name()), 1), lt);
     block.assign(scalar(format!("{}-gt", condition_register.name()), 1), gt);
     block.assign(scalar(format!("{}-eq", condition_register.name()), 1), eq);
@@ -302,21 +291,10 @@ pub fn set_condition_register_unsigned(
     lhs: Expression,
     rhs: Expression,
 ) -> Result<(), Error> {
-    let lt = Expression::ite(
-        Expression::cmpltu(lhs.clone(), rhs.clone())?,
-        expr_const(0b0100, 4),
-        expr_const(0b0000, 4),
-    )?;
-    let gt = Expression::ite(
-        Expression::cmpltu(rhs.clone(), lhs.clone())?,
-        expr_const(0b0010, 4),
-        expr_const(0b0000, 4),
-    )?;
-    let eq = Expression::ite(
-        Expression::cmpltu(rhs, lhs)?,
-        expr_const(0b0001, 4),
-        expr_const(0b0000, 4),
-    )?;
+    // each flag is a 1-bit scalar: assign the 1-bit comparison results
+    let lt = Expression::cmpltu(lhs.clone(), rhs.clone())?;
+    let gt = Expression::cmpltu(rhs.clone(), lhs.clone())?;
+    let eq = Expression::cmpltu(rhs, lhs)?;
     block.assign(scalar(format!("{}-lt", condition_register.name()), 1), lt);
     block.assign(scalar(format!("{}-gt", condition_register.name()), 1), gt);
     block.assign(scalar(format!("{}-eq", condition_register.name()), 1), eq);
